@@ -153,7 +153,7 @@ def _fns(name):
 
 
 _STUB = "numpy replaced by vlib/symnp.py (validated against numpy each run); sqrt of a symbolic argument answers with a value that yields the forked ring count; trig only of concrete angles (math)"
-register(Harness("c27_spiral", "C27", make_spiral, {"quick": dict(nth=3, R=2, shards=16, budget_s=400, per_path_s=60), "thorough": dict(nth=4, R=3, shards=64, budget_s=3000, per_path_s=120)},
+register(Harness("c27_spiral", "C27", make_spiral, {"quick": dict(nth=4, R=3, shards=32, budget_s=400, per_path_s=60), "thorough": dict(nth=6, R=4, shards=96, budget_s=3000, per_path_s=120)},
                  goals=["points", "three-points"], functions=_fns("spiral"), mode="traced", float_model="real",
                  symbolic="centre and both ranges: symbolic reals (> 0); dr = 1 (scale invariance); dr_y/dr in {None, 1, 1/2, 2, 3}; nth in [1, nth]; tilt in {0, 0.3, -0.5}; ring count: any value below R (solver fork)",
                  out_of_bound="r_max/dr >= R (more rings); other aspect ratios, nth and tilts; floating-point rounding (exact reals)", stubs=_STUB, require_exhaustive=True))
